@@ -17,24 +17,21 @@ open Rv Rv.SrcViews
 /-- `validateRange` of the source = the model's, and it cannot panic. -/
 theorem validateRange_eq (start end_ size : Int) :
     Rv.Generated.Src.validateRange start end_ size = some (Rv.Range.validateRange start end_ size) := by
-  unfold Rv.Generated.Src.validateRange Rv.Range.validateRange
-  split <;> simp_all <;> omega
+  simp only [Rv.Generated.Src.validateRange, Rv.Range.validateRange]
+  (repeat' split) <;> simp_all <;> omega
 
 /-- `rangeHeader.SliceSize` of the source = the model's `sliceSize` (the error
     result collapses to `none`), and it cannot panic. -/
 theorem sliceSize_eq (start end_ size : Int) :
     (Rv.Generated.Src.sliceSize ⟨start, end_⟩ size).map (fun r => if r.2.2 then some (r.1, r.2.1) else none) =
       some (Rv.Range.sliceSize start end_ size) := by
-  unfold Rv.Generated.Src.sliceSize Rv.Range.sliceSize
-  simp only [validateRange_eq, Option.bind_some]
+  simp only [Rv.Generated.Src.sliceSize, Rv.Range.sliceSize, validateRange_eq, Option.bind_some]
   by_cases h1 : start = -1 <;> by_cases h2 : end_ = -1 <;> simp [h1, h2]
-  all_goals (split <;> simp_all)
+  all_goals ((repeat' split) <;> simp_all)
 
 theorem sliceSize_total (r : RangeHdr) (size : Int) : (Rv.Generated.Src.sliceSize r size).isSome := by
-  unfold Rv.Generated.Src.sliceSize
-  simp only [validateRange_eq, Option.bind_some]
-  repeat' split
-  all_goals simp
+  simp only [Rv.Generated.Src.sliceSize, validateRange_eq, Option.bind_some]
+  (repeat' split) <;> simp
 
 example : Rv.Generated.Src.sliceSize ⟨-1, 5⟩ 20 = some (15, 19, true) := by decide
 
